@@ -36,5 +36,5 @@ CHECK = SessionCheck(
     assumptions=['ties (same path parameter) may fill in any order'],
     real_components=COMMON_REAL, stub_components=COMMON_STUB,
     fault_kinds=['minutes_with_2+_fills', 'reaction_order_filled_same_minute'],
-    probes=['resting_fills', 'split_calls', 'minutes_with_2+_fills', 'reaction_order_filled_same_minute'],
+    probes=['split_ride_along_calls', 'resting_fills', 'split_calls', 'minutes_with_2+_fills', 'reaction_order_filled_same_minute'],
 )
